@@ -1,6 +1,6 @@
 use crate::ast::*;
 use crate::lexer::{Token, Tokenizer};
-use crate::object::Error;
+use crate::object::{Error, MAX_INT};
 
 type ParseError = Error;
 
@@ -91,7 +91,7 @@ impl<'a> Parser<'a> {
     #[inline]
     fn parse_expr(&mut self, precedence: Precedence) -> Result<Expr, ParseError> {
         let mut left = match self.current_token {
-            Token::Int(s) => self.parse_int_expression(s),
+            Token::Int(s) => self.parse_int_expression(s)?,
             Token::Float(s) => self.parse_float_expression(s),
             Token::True => self.parse_bool_expression(true),
             Token::False => self.parse_bool_expression(false),
@@ -270,10 +270,13 @@ impl<'a> Parser<'a> {
     }
 
     #[inline]
-    fn parse_int_expression(&mut self, strval: &str) -> Expr {
+    fn parse_int_expression(&mut self, strval: &str) -> Result<Expr, ParseError> {
         self.advance();
-        Expr::Int {
-            value: strval.parse().unwrap(),
+        match strval.parse() {
+            Ok(value) if value <= MAX_INT => Ok(Expr::Int { value }),
+            _ => Err(ParseError::SyntaxError(format!(
+                "het getal {strval} is te groot voor een integer"
+            ))),
         }
     }
 
